@@ -70,3 +70,14 @@ func Category(r rune) string {
 	}
 	return "Cn"
 }
+
+// ClassScreen is Class for a terminal in a non-CJK UTF-8 locale: East-Asian-ambiguous
+// runes (box drawing, Latin-1 letters such as U+00E9, ...) are narrow there.
+func ClassScreen(r rune) int {
+	c := Class(r)
+	if c == -1 && r >= 0 && r <= unicode.MaxRune && width.LookupRune(r).Kind() == width.EastAsianAmbiguous &&
+		unicode.IsGraphic(r) && !unicode.In(r, unicode.Co, unicode.Mc) {
+		return 1
+	}
+	return c
+}
